@@ -22,7 +22,7 @@ API_THEOREMS = {
     "C05": ["C05_api_number_error_wrapped", "C05_api_text_error_wrapped", "C05_api_enum_error_wrapped", "C05_api_fieldlist_error_wrapped"],
     "C09": ["C09_api_ReadNumberRegister", "C09_api_ReadTextRegister", "C09_api_ReadEnumRegister", "C09_api_ReadFieldListRegister",
             "C09_api_fieldlist_bits"],
-    "C10": ["C10_api_StreamRegisterList", "C10_api_stream_product_lists", "C10_api_ReadRegisterList", "C10_api_ReadRegisterList_collects"],
+    "C10": ["C10_api_StreamRegisterList", "C10_api_stream_product_lists", "C10_api_ReadRegisterList", "C10_api_ReadRegisterList_collects", "C10_api_read_product_lists"],
     "C11": ["C11_api_NewRegisterApi"],
     "C20": ["C20_api_GetList"],
     "C15": ["C15_api_ReadFieldListRegister", "C15_api_fieldlist_bits", "C15_api_CommaString", "C15_api_CommaString_deterministic",
